@@ -39,20 +39,42 @@ theorem mapM_mem {α β : Type} (f : α → Option β) :
         · obtain ⟨a', ha', hfa'⟩ := mapM_mem f t bs ht b hb'
           exact ⟨a', List.mem_cons_of_mem _ ha', hfa'⟩
 
-/-- `solve` returns only certified stationary points of reversible, non-negative networks. -/
-theorem solve_sound {n : Nat} (l : List (Jump (Fin n) ℚ)) (ξ : Fin n → ℚ) (h : solve n l = some ξ) :
+theorem rev_rev {ι : Type} (a : Jump ι ℚ) : a.rev.rev = a := by
+  cases a; simp [Jump.rev]
+
+theorem pairedRev_perm {ι : Type} [DecidableEq ι] :
+    ∀ (l : List (Jump ι ℚ)), pairedRev l = true → (l.map Jump.rev).Perm l
+  | [], _ => by simp
+  | [_], h => by simp [pairedRev] at h
+  | a :: b :: t, h => by
+    simp only [pairedRev, Bool.and_eq_true, decide_eq_true_eq] at h
+    obtain ⟨hb, ht⟩ := h
+    subst hb
+    simp only [List.map_cons, rev_rev]
+    exact (List.Perm.swap _ _ _).trans (((pairedRev_perm t ht).cons _).cons _)
+
+/-- `certify` accepts only genuine stationary points of reversible, non-negative networks. -/
+theorem certify_sound {n : Nat} (l : List (Jump (Fin n) ℚ)) (ξ0 ξ : Fin n → ℚ)
+    (h : certify n l ξ0 = some ξ) :
     (l.map Jump.rev).Perm l ∧ (∀ a ∈ l, 0 ≤ a.r) ∧ Stationary l ξ := by
-  unfold solve at h
-  simp only at h
+  unfold certify at h
   split at h
   · rename_i hc
     obtain ⟨h1, h2, h3⟩ := hc
     cases h
-    refine ⟨List.isPerm_iff.1 h1, ?_, h3⟩
-    intro a ha
-    have := List.all_eq_true.1 h2 a ha
-    simpa using this
+    refine ⟨?_, ?_, h3⟩
+    · rcases h1 with h1 | h1
+      · exact pairedRev_perm l h1
+      · exact List.isPerm_iff.1 h1
+    · intro a ha
+      have := List.all_eq_true.1 h2 a ha
+      simpa using this
   · cases h
+
+/-- `solve` returns only certified stationary points of reversible, non-negative networks. -/
+theorem solve_sound {n : Nat} (l : List (Jump (Fin n) ℚ)) (ξ : Fin n → ℚ) (h : solve n l = some ξ) :
+    (l.map Jump.rev).Perm l ∧ (∀ a ∈ l, 0 ≤ a.r) ∧ Stationary l ξ :=
+  certify_sound l _ ξ h
 
 theorem network_diag (inp : Input) (u : List ℚ) (l : List (Jump (Fin inp.n) ℚ))
     (h : network inp u u = some l) : ∀ a ∈ l, a.e = a.d := by
